@@ -188,18 +188,45 @@ def make_wl(spec, records):
     else:
         wl = wiring.WireLog(rxed=spec["rxed"], txed=spec["txed"], samed=True, filed=False)
     wl.reopen()
-    if mode == 1:
-        if wl.rxl is not None:
-            wl.rxl = RecIO(records, "rxbuf")
-        if wl.txl is not None:
-            wl.txl = RecIO(records, "txbuf")
-    else:
-        shared = RecIO(records, "shared")
-        if wl.rxl is not None:
-            wl.rxl = shared
-        if wl.txl is not None:
-            wl.txl = shared
+    wrap_wl(wl, records)
     return wl
+
+
+def wrap_wl(wl, records):
+    """Replace the (freshly created, open) buffers of the log by recording ones; stale closed handles stay."""
+    fresh = lambda b: b is not None and not b.closed and not isinstance(b, RecIO)
+    if wl.samed:
+        if fresh(wl.rxl) or fresh(wl.txl):
+            shared = RecIO(records, "shared")
+            if fresh(wl.rxl):
+                wl.rxl = shared
+            if fresh(wl.txl):
+                wl.txl = shared
+    else:
+        if fresh(wl.rxl):
+            wl.rxl = RecIO(records, "rxbuf")
+        if fresh(wl.txl):
+            wl.txl = RecIO(records, "txbuf")
+
+
+def wl_flags(case):
+    """(txed, rxed) in force while each op runs, and after the last one: list of pairs, one per op + 1."""
+    spec = case["wl"]
+    on = bool(spec["mode"])
+    txed, rxed, opened = spec["txed"], spec["rxed"], True
+    out = []
+    for op in case["ops"]:
+        out.append((on and opened and txed, on and opened and rxed))
+        if op[0] == "wl":
+            if op[1] == "close":
+                opened = False
+            else:
+                kw = op[2]
+                txed = kw.get("txed", txed) if kw.get("txed") is not None else txed
+                rxed = kw.get("rxed", rxed) if kw.get("rxed") is not None else rxed
+                opened = True
+    out.append((on and opened and txed, on and opened and rxed))
+    return out
 
 
 def build(kind, conn0, bs, wl, tymth=None):
@@ -285,13 +312,23 @@ def run_impl(case):
                 if client:
                     sock.connect_result = 0
                     c.serviceConnect()
+            elif k == "wl":          # the attached WireLog is closed / reconfigured while the connection lives
+                if wl is not None:
+                    if op[1] == "close":
+                        wl.close()
+                    else:
+                        wl.reopen(**{a: b for a, b in op[2].items() if b is not None})
+                        wrap_wl(wl, records)
             else:
                 raise AssertionError("bad op " + repr(op))
-        except OSError as ex:
+        except AssertionError:
+            raise
+        except Exception as ex:
             res = ["exc", exn_kind(ex)]
         if c.cs is not sock:
             raise AssertionError("connection replaced its socket")
-        snaps.append({"res": res, "calls": sock.calls, "tx": len(c.txbs), "rx": len(c.rxbs), "cut": bool(c.cutoff)})
+        snaps.append({"res": res, "calls": sock.calls, "tx": len(c.txbs), "rx": len(c.rxbs), "cut": bool(c.cutoff),
+                      "ks": len(sock.accepted), "kr": len(sock.delivered), "nrec": len(records)})
     if sock.misuse:
         raise AssertionError("fake socket misuse: %s" % sock.misuse)
     obs = {"snaps": snaps,
@@ -302,8 +339,9 @@ def run_impl(case):
            "taken": bytes(taken).hex(),
            "wlog": parse_records(case["wl"], records, who)}
     if wl is not None:
-        obs["readTx"] = (wl.readTx() or b"").hex() if case["wl"]["mode"] == 1 else None
-        obs["readRx"] = (wl.readRx() or b"").hex() if case["wl"]["mode"] == 1 else None
+        static = case["wl"]["mode"] == 1 and not any(op[0] == "wl" for op in case["ops"])
+        obs["readTx"] = (wl.readTx() or b"").hex() if static else None
+        obs["readRx"] = (wl.readRx() or b"").hex() if static else None
         wl.close()
     return obs
 
@@ -326,18 +364,25 @@ def oracle(case, obs):
     log = obs["wlog"]
     if any(r[0] == "bad" for r in log):
         return "wire log record not of the configured format"
-    ltx = b"".join(H(r[1]) for r in log if r[0] == "tx")
-    lrx = b"".join(H(r[1]) for r in log if r[0] == "rx")
-    want_tx = ksent if (spec["mode"] and spec["txed"]) else b""
-    want_rx = H(obs["krecvd"]) if (spec["mode"] and spec["rxed"]) else b""
-    if ltx != want_tx:
-        return "wire log tx != bytes actually sent"
-    if lrx != want_rx:
-        return "wire log rx != bytes actually received"
-    if spec["mode"] == 1:
+    # per op: the records written are exactly the bytes the kernel moved during the op in every direction that is
+    # enabled at that moment, and a disabled (or closed) direction receives nothing
+    flags = wl_flags(case)
+    krecvd = H(obs["krecvd"])
+    p_ks = p_kr = p_n = 0
+    for n, (op, sn) in enumerate(zip(case["ops"], obs["snaps"])):
+        new = log[p_n:sn["nrec"]]
+        ltx = b"".join(H(r[1]) for r in new if r[0] == "tx")
+        lrx = b"".join(H(r[1]) for r in new if r[0] == "rx")
+        txed, rxed = flags[n]
+        if ltx != (ksent[p_ks:sn["ks"]] if txed else b""):
+            return f"op {n} {op[0]}: wire log tx != bytes actually sent" if txed else f"op {n} {op[0]}: the disabled tx wire log received data"
+        if lrx != (krecvd[p_kr:sn["kr"]] if rxed else b""):
+            return f"op {n} {op[0]}: wire log rx != bytes actually received" if rxed else f"op {n} {op[0]}: the disabled rx wire log received data"
+        p_ks, p_kr, p_n = sn["ks"], sn["kr"], sn["nrec"]
+    if obs.get("readTx") is not None:
         if spec["txed"] and H(obs["readTx"]) != ksent:
             return "WireLog.readTx() != bytes actually sent"
-        if spec["rxed"] and H(obs["readRx"]) != H(obs["krecvd"]):
+        if spec["rxed"] and H(obs["readRx"]) != krecvd:
             return "WireLog.readRx() != bytes actually received"
     # progress: an attempted send that the kernel answers with n >= 1 shrinks txbs by min(n, len)
     prev = 0
@@ -380,6 +425,9 @@ def oracle(case, obs):
 
 
 def op_answers(op):
+    if op[0] == "wl":
+        return [["acc", 0]]      # reconfiguring the log involves no socket at all: must not raise, must not cut
+
     k = op[0]
     if k == "sends":
         return [op[1]]
@@ -431,6 +479,8 @@ def _op(op):
         return f"(Stream.Service {_sres(op[1])} {coq_list([_rres(a) for a in op[2]], 'Stream.rres')})"
     if k == "take":
         return "Stream.TakeRx"
+    if k == "wl":
+        return op      # resolved in to_coq (needs the flags in force)
     return "Stream.Connect"
 
 
@@ -462,7 +512,8 @@ def to_coq(case, obs):
             "Stream.c_connected := %s; Stream.c_cutoff := %s; Stream.c_txbs := %s; Stream.c_rxbs := %s; "
             "Stream.c_ksent := %s; Stream.c_krecvd := %s; Stream.c_taken := %s; Stream.c_wlog := %s |}" % (
                 coq_cfg(case), coq_bool(case["conn0"]),
-                coq_list([_op(o) for o in case["ops"]], "Stream.op"),
+                coq_list([_op(o) if o[0] != "wl" else "(Stream.WlSet %s %s)" % (coq_bool(f[0]), coq_bool(f[1]))
+                          for o, f in zip(case["ops"], wl_flags(case)[1:])], "Stream.op"),
                 coq_list([_snap(s) for s in obs["snaps"]], "Stream.snap"),
                 coq_bool(obs["connected"] if is_client(case["kind"]) else case["conn0"]), coq_bool(obs["cutoff"]),
                 coq_bytes(H(obs["txbs"])), coq_bytes(H(obs["rxbs"])), coq_bytes(H(obs["ksent"])),
@@ -537,6 +588,16 @@ def directed():
             ["tx", p1], ["sends", ["acc", 4]], ["recvs", [["data", "0102"], ["data", "0304", "dead"], blk]],
             ["sends", ["acc", 2]], ["once", ["data", "05"]], ["recvs", [["data", "06"], fault_ans(kind, errno.ECONNRESET)]],
             ["sends", ["acc", 2]]]})
+        # the attached WireLog is reconfigured / closed while the connection lives
+        for mode, seq in ((1, [{"rxed": False}, {"txed": False}, {"rxed": True, "txed": True}]),
+                          (2, [{"txed": False}, {"samed": False, "rxed": False}, {"samed": True, "rxed": True, "txed": True}]),
+                          (2, [{"samed": False}, {"rxed": False, "txed": False}, {"txed": True}])):
+            traffic = lambda: [["sends", ["acc", 2]], ["recvs", [["data", "0a0b"], blk]], ["service", ["acc", 1], [["data", "0c"]]]]
+            ops = [["tx", big[:60]]] + traffic()
+            for kw in seq:
+                ops += [["wl", "reopen", kw]] + traffic()
+            ops += [["wl", "close"]] + traffic() + [["wl", "reopen", {}]] + traffic()
+            out.append({"kind": kind, "conn0": True, "bs": 16, "wl": {"mode": mode, "rxed": True, "txed": True}, "ops": ops})
         # liveness: everything queued is delivered by len(txbs) healthy services (one byte at a time)
         out.append({"kind": kind, "conn0": True, "bs": 8, "wl": WL1, "drain": True, "ops":
                     [["tx", big[:80]], ["sends", blk], ["tx", big[80:120]]] + [["sends", ["acc", 1]]] * 60})
@@ -605,8 +666,16 @@ def gen_case(rng, tier):
             ops.append(["service", a, [recv_ans() for _ in range(rng.choice([0, 1, 2, 3]))]])
             if a[0] == "acc":
                 pending = max(0, pending - a[1])
-        elif r < 0.97:
+        elif r < 0.96:
             ops.append(["take"])
+        elif r < 0.985:
+            if rng.random() < 0.3:
+                ops.append(["wl", "close"])
+            else:
+                kw = {"rxed": rng.choice([None, True, False]), "txed": rng.choice([None, True, False])}
+                if spec["mode"] == 2:
+                    kw["samed"] = rng.choice([None, True, False])
+                ops.append(["wl", "reopen", kw])
         else:
             ops.append(["connect"])
     case = {"kind": kind, "conn0": conn0, "bs": bs, "wl": spec, "ops": ops}
